@@ -15,8 +15,8 @@ CONFIG = {
     "C02": {"jobs": [lockstep("C02", 4000, 60000), lockstep("general", 1500, 20000)]},
     "C03": {"jobs": [lockstep("C03", 4000, 60000), special("resizeidle", 400, 4000)]},
     "C04": {"jobs": [lockstep("C04", 4000, 60000), special("resizeidle", 400, 4000)]},
-    "C05": {"jobs": [lockstep("C05", 4000, 60000)]},
-    "C06": {"jobs": [lockstep("C06", 4000, 60000)]},
+    "C05": {"jobs": [lockstep("C05", 4000, 60000), special("resizeidle", 400, 4000)]},
+    "C06": {"jobs": [lockstep("C06", 4000, 60000), special("resizeidle", 400, 4000)]},
     "C07": {"jobs": [lockstep("C07", 4000, 60000), special("roundtrip", 300, 4000)]},
     "C08": {"jobs": [special("segmentation", 1500, 30000)]},
     "C09": {"jobs": [lockstep("C09", 4000, 60000), special("embed", 1500, 30000)]},
@@ -25,7 +25,7 @@ CONFIG = {
     "C12": {"jobs": [special("keys", 200000, 4000000)]},
     "C13": {"jobs": [special("mouse", 1, 1)]},
     "C14": {"jobs": [lockstep("C14", 4000, 60000)]},
-    "C15": {"jobs": [lockstep("C10", 1500, 20000), special("locks", 40, 400, race=True)]},
+    "C15": {"jobs": [lockstep("C10", 1500, 20000), special("locks", 40, 400, race=True), special("resizeidle", 600, 6000)]},
     "C16": {"jobs": [special("streams", 1500, 30000), lockstep("C16g", 1500, 30000)]},
     "C17": {"jobs": [lockstep("C17", 4000, 60000)]},
     "C18": {"jobs": [lockstep("C18", 4000, 60000), special("resizeidle", 600, 6000)]},
